@@ -359,8 +359,27 @@ def check(run):
     l = call(it, s, 'load_address')
     good = pat == '00' and isinstance(l, K) and l.v is None and isinstance(p, K) and p.v is None and rem(it, s) == 0
     run.check(good, 'D4', 'store_address/load_address[addr_none]' if not good else 'addr_none', f'wrote {pat!r}, read {vrepr(l)}', wa)
-    # addr_extern, several lengths
+    # an external address whose value is 0 is still an address (addr_extern$01 len n, n zero bits), not addr_none
     EA = prog.cls('ExternalAddress')
+    for n in (1, 8, 77):
+        for route in ('store_address', 'to_cell'):
+            it = Interp(prog)
+            with guard(run, 'D4', f'{route}/load_address[addr_extern, value 0]', wa, f'len {n}'):
+                ea = it.construct(EA, [K(0), K(n)], {})
+                b = builder(it)
+                if route == 'store_address':
+                    call(it, b, 'store_address', ea)
+                else:
+                    call(it, b, 'store_cell', call(it, ea, 'to_cell'))
+                pat = ''.join(sg.val if sg.kind == 'k' else '?' * sg.n for sg in segs_of(b))
+                want = '01' + format(n, '09b') + '0' * n
+                s = to_slice(it, b)
+                l = call(it, s, 'load_address')
+                okr = isinstance(l, Inst) and isinstance(l.attrs.get('external_address'), K) and l.attrs['external_address'].v == 0 and isinstance(l.attrs.get('len'), K) and l.attrs['len'].v == n
+                good = pat == want and okr and rem(it, s) == 0
+                run.check(good, 'D4', f'{route}/load_address[addr_extern, value 0]' if not good else f'addr_extern-zero[{route},len={n}]',
+                          f'ExternalAddress(0, {n}): wrote {pat[:24]!r}..., TL-B encoding {want[:24]!r}...; read back {"the same address" if okr else vrepr(l)[:40]}', wa)
+    # addr_extern, several lengths
     for n in (1, 8, 9, 256, 511):
         it = Interp(prog)
         ext = Sym('ext', ty='int', not_none=True, key=('ext',))
